@@ -1,0 +1,87 @@
+//go:build verif
+
+package golang
+
+// Contracts for the verification machinery in /verif (comment-only; no executable code).
+//
+// The file system is the ghost state fsKind / fsData of /verif/contracts/dep/os.gvc
+// (fsKind[p]: 0 nothing, 1 directory, 2 regular file, 3 other; fsData[p]: abstract content).
+
+//@ import "os"
+//@ import "path/filepath"
+
+// untouched(): nothing that existed before the call was modified, truncated or deleted.
+//@ spec func untouched() bool =
+//@   forall q string :: {fsKind[q]} {fsData[q]} old(fsKind)[q] != 0 ==> fsKind[q] == old(fsKind)[q] && fsData[q] == old(fsData)[q]
+
+//@ spec func genOK(g *generator) bool = g != nil && g.Params != nil && g.Params.Spec != nil && g.UI != nil
+
+//@ func isIDValid(name string) bool
+//@   pure
+
+//@ func (g *generator) prepare() error
+//@   requires genOK(g)
+//@   modifies fsKind, g.Params.Path
+//@   ensures genOK(g) && g.Params.Spec == old(g.Params.Spec) && g.Params.Path == filepath.Clean(old(g.Params.Path))
+//@   ensures @created result == nil ==> old(fsKind)[filepath.Join(g.Params.Path, g.Params.Spec.Name)] == 0
+//@     && fsKind == upd(old(fsKind), filepath.Join(g.Params.Path, g.Params.Spec.Name), 1)
+//@   ensures @rejected result != nil ==> fsKind == old(fsKind)
+//@   ensures @badname !isIDValid(g.Params.Spec.Name) ==> result != nil
+
+//@ func (g *generator) renderTemplate(filename string, data any) error
+//@   requires genOK(g)
+//@   modifies fsKind, fsData
+//@   ensures @untouched untouched()
+//@   ensures @created result == nil ==> old(fsKind)[filepath.Join(g.Params.Path, g.Params.Spec.Name, filename)] == 0
+//@     && fsKind[filepath.Join(g.Params.Path, g.Params.Spec.Name, filename)] == 2
+
+// pkgFile(g, name): the path of a file of the emitted package.
+//@ spec func pkgFile(g *generator, name string) string = filepath.Join(g.Params.Path, g.Params.Spec.Name, name)
+//@ spec func sameGen(g *generator) bool = genOK(g) && g.Params == old(g.Params) && g.Params.Path == old(g.Params.Path) && g.Params.Spec == old(g.Params.Spec) && g.Params.Spec.Name == old(g.Params.Spec.Name)
+
+//@ func (g *generator) generateCore() error
+//@   requires genOK(g)
+//@   modifies fsKind, fsData
+//@   loop[0] invariant untouched()
+//@   loop[0] invariant errs == nil && __i0 > 0 ==> old(fsKind)[pkgFile(g, "errors.go")] == 0 && fsKind[pkgFile(g, "errors.go")] == 2
+//@   loop[0] invariant errs == nil && __i0 > 1 ==> old(fsKind)[pkgFile(g, "types.go")] == 0 && fsKind[pkgFile(g, "types.go")] == 2
+//@   loop[0] invariant errs == nil && __i0 > 2 ==> old(fsKind)[pkgFile(g, "stack.go")] == 0 && fsKind[pkgFile(g, "stack.go")] == 2
+//@   ensures @untouched untouched()
+//@   ensures @created result == nil ==> fsKind[pkgFile(g, "errors.go")] == 2 && fsKind[pkgFile(g, "types.go")] == 2 && fsKind[pkgFile(g, "stack.go")] == 2
+//@     && old(fsKind)[pkgFile(g, "errors.go")] == 0 && old(fsKind)[pkgFile(g, "types.go")] == 0 && old(fsKind)[pkgFile(g, "stack.go")] == 0
+
+//@ func groupDFAStates(dfa *auto.DFA) symboltable.SymbolTable[int, symboltable.SymbolTable[int, []rune]]
+//@   requires dfa != nil
+//@   ensures result != nil
+
+//@ func (g *generator) generateLexer() error
+//@   requires genOK(g)
+//@   modifies fsKind, fsData
+//@   loop[3] invariant untouched()
+//@   loop[3] invariant errs == nil && __i3 > 0 ==> old(fsKind)[pkgFile(g, "input.go")] == 0 && fsKind[pkgFile(g, "input.go")] == 2
+//@   loop[3] invariant errs == nil && __i3 > 1 ==> old(fsKind)[pkgFile(g, "lexer.go")] == 0 && fsKind[pkgFile(g, "lexer.go")] == 2
+//@   ensures @untouched untouched()
+//@   ensures @created result == nil ==> fsKind[pkgFile(g, "input.go")] == 2 && fsKind[pkgFile(g, "lexer.go")] == 2
+//@     && old(fsKind)[pkgFile(g, "input.go")] == 0 && old(fsKind)[pkgFile(g, "lexer.go")] == 0
+
+//@ func (g *generator) generateParser() error
+//@   requires genOK(g)
+//@   modifies fsKind, fsData
+//@   loop[0] invariant untouched()
+//@   loop[0] invariant errs == nil && __i0 > 0 ==> old(fsKind)[pkgFile(g, "parser.go")] == 0 && fsKind[pkgFile(g, "parser.go")] == 2
+//@   ensures @untouched untouched()
+//@   ensures @created result == nil ==> fsKind[pkgFile(g, "parser.go")] == 2 && old(fsKind)[pkgFile(g, "parser.go")] == 0
+
+//@ func Generate(u ui.UI, params *Params) error
+//@   requires u != nil && params != nil && params.Spec != nil
+//@   modifies fsKind, fsData, params.Path
+//@   ensures @untouched untouched()
+//@   ensures @badname !isIDValid(old(params.Spec.Name)) ==> result != nil && fsKind == old(fsKind) && fsData == old(fsData)
+//@   ensures @complete result == nil ==> exists dir string :: dir == filepath.Join(filepath.Clean(old(params.Path)), old(params.Spec.Name))
+//@     && old(fsKind)[dir] == 0 && fsKind[dir] == 1
+//@     && fsKind[filepath.Join(filepath.Clean(old(params.Path)), old(params.Spec.Name), "errors.go")] == 2
+//@     && fsKind[filepath.Join(filepath.Clean(old(params.Path)), old(params.Spec.Name), "types.go")] == 2
+//@     && fsKind[filepath.Join(filepath.Clean(old(params.Path)), old(params.Spec.Name), "stack.go")] == 2
+//@     && fsKind[filepath.Join(filepath.Clean(old(params.Path)), old(params.Spec.Name), "input.go")] == 2
+//@     && fsKind[filepath.Join(filepath.Clean(old(params.Path)), old(params.Spec.Name), "lexer.go")] == 2
+//@     && fsKind[filepath.Join(filepath.Clean(old(params.Path)), old(params.Spec.Name), "parser.go")] == 2
